@@ -46,6 +46,11 @@ fn main() {
         let huge = k % 16 == 11;
         let dbdef = if huge { gen_db_sized(&mut r, 1, 100, 130) } else { gen_db(&mut r, 2, if big { 14 } else { 7 }) };
         let mut db = load_db(&dbdef);
+        // every other database also has secondary indexes (results must not depend on them)
+        let index_ddl = if k % 2 == 1 { add_random_indexes(&mut db, &dbdef, &mut r, "c06") } else { Vec::new() };
+        if !index_ddl.is_empty() {
+            sum.count("database:with-indexes");
+        }
         let mut cases = Vec::new();
         for _ in 0..per_db {
             // base query: FROM (1-2 items, joins allowed), optional WHERE w, predicate p over the FROM row
@@ -56,7 +61,24 @@ fn main() {
                 let scopes = vec![tys.clone()];
                 let w = if g.r.chance(1, 2) { Some(g.expr(Ty::Bool, &scopes, 1)) } else { None };
                 let pd = 1 + g.r.below(2) as usize;
-                let p = g.expr(Ty::Bool, &scopes, pd);
+                // a third of the predicates have the shapes index range extraction looks for: a column against
+                // constants taken from the data (comparison, [NOT] BETWEEN, [NOT] IN), possibly ANDed with another
+                let p = if g.r.chance(1, 3) && !tys.is_empty() {
+                    let mut simple = |g: &mut Gen| -> Expr {
+                        let c = g.r.below(tys.len() as u64) as usize;
+                        let col = Expr::Col(0, c);
+                        let k = |g: &mut Gen| Expr::Const(gen_val(g.r, tys[c], 0));
+                        match g.r.below(5) {
+                            0..=1 => Expr::Bin(*g.r.pick(&[BinOp::Eq, BinOp::Lt, BinOp::Le, BinOp::Gt, BinOp::Ge, BinOp::Ne]), Box::new(col), Box::new(k(g))),
+                            2..=3 => Expr::Between(Box::new(col), Box::new(k(g)), Box::new(k(g)), g.r.chance(1, 2)),
+                            _ => Expr::InList(Box::new(col), (0..1 + g.r.below(3)).map(|_| k(g)).collect(), g.r.chance(1, 2)),
+                        }
+                    };
+                    let a = simple(&mut g);
+                    if g.r.chance(1, 3) { Expr::Bin(BinOp::And, Box::new(a), Box::new(simple(&mut g))) } else { a }
+                } else {
+                    g.expr(Ty::Bool, &scopes, pd)
+                };
                 let np = 1 + g.r.below(2) as usize;
                 let mut proj = Vec::new();
                 let mut ptys = Vec::new();
